@@ -252,6 +252,17 @@ class AnnotateModel:
                 if isinstance(inner, ast.Call) and dotted(inner.func) in ("re.finditer",) and len(inner.args) >= 2:
                     pos_defs.setdefault(nm, []).append((s, "match", inner.args[1]))
                     continue
+                # a compiled pattern object (whatever it is): P.finditer(slice) gives matches of that slice, P.search / P.match(slice) one match;
+                # positions of a match lie inside the searched string for any pattern
+                if isinstance(inner, ast.Call) and isinstance(inner.func, ast.Attribute) and inner.func.attr == "finditer" and dotted(inner.func.value) not in ("re", "regex") \
+                        and len(inner.args) == 1 and not inner.keywords:
+                    pos_defs.setdefault(nm, []).append((s, "match", inner.args[0]))
+                    continue
+                if isinstance(v, ast.Call) and isinstance(v.func, ast.Attribute) and v.func.attr in ("search", "match", "fullmatch") and not v.keywords:
+                    is_mod = dotted(v.func.value) in ("re", "regex")
+                    if (is_mod and len(v.args) == 2) or (not is_mod and len(v.args) == 1):
+                        pos_defs.setdefault(nm, []).append((s, "match", v.args[-1]))
+                        continue
                 if isinstance(v, ast.Call) and isinstance(v.func, ast.Attribute) and v.func.attr in ("find", "rfind", "index", "rindex") and len(v.args) == 1 \
                         and isinstance(v.func.value, ast.Subscript):
                     pos_defs.setdefault(nm, []).append((s, "match" if v.func.attr in ("index", "rindex") else "find", v.func.value))
@@ -597,6 +608,10 @@ def _match_pos(e: ast.AST, matches_src: Dict[str, ast.AST]) -> Optional[str]:
             and isinstance(e.func.value, ast.Subscript) and isinstance(e.func.value.value, ast.Name)
             and e.func.value.value.id in matches_src):
         return e.func.value.value.id
+    # `m.start()` / `m.end()` of a single match object
+    if (isinstance(e, ast.Call) and isinstance(e.func, ast.Attribute) and e.func.attr in ("start", "end") and not e.args
+            and isinstance(e.func.value, ast.Name) and e.func.value.id in matches_src):
+        return e.func.value.id
     return None
 
 
